@@ -207,7 +207,7 @@ class LWorld:
             s["rproc"][i - 1] = r
         self.emit(a, i, r)
 
-    _WEIGHT = {"create": 5, "write": 6, "crash": 0.4, "exit": 3, "qexit": 2, "rexit": 2, "reuse": 0.5}
+    _WEIGHT = {"create": 5, "write": 6, "crash": 0.1, "exit": 3, "qexit": 2, "rexit": 2, "reuse": 0.5}
 
     def env_point(self):
         """called once before every launcher event: the environment moves"""
@@ -218,13 +218,17 @@ class LWorld:
                 else:
                     self.skipped += 1
         elif self.rnd is not None:
-            while self.rnd.random() < self.p_env:
+            # every enabled environment event competes with "nothing happens now" (weight falls with p_env)
+            idle = 6.0 * (1.0 - self.p_env)
+            for _ in range(4):
                 en = self.enabled_env()
                 if not en:
                     break
-                ws = [self._WEIGHT[e[0]] * self.case.get("w_" + e[0], 1.0) for e in en]
-                a, i, r = self.rnd.choices(en, weights=ws)[0]
-                self.apply_env(a, i, r)
+                ws = [self._WEIGHT[e[0]] * self.case.get("w_" + e[0], 1.0) for e in en] + [idle]
+                pick = self.rnd.choices(en + [None], weights=ws)[0]
+                if pick is None:
+                    break
+                self.apply_env(*pick)
         self.k += 1
 
     def signal(self, i, h, to):
@@ -711,7 +715,6 @@ def random_proc_case(rnd, k):
         "gr": DEFAULT_GR if real_to else rnd.randint(1, 4),
     }
     case = {"src": "random", "profile": profile, "scn": scn, "pid0": pid0, "q0": q0, "seed": rnd.randrange(1 << 30), "p_env": rnd.choice([0.3, 0.5, 0.7, 0.85]), "p_rc": rnd.choice([0.0, 0.0, 0.05, 0.15])}
-    case["w_crash"] = 0.2
     if profile == "nopid":  # a daemon that never writes its pid file
         case["w_create"] = 0.0
     elif profile == "stubborn":  # nodes that ignore SIGTERM
@@ -871,6 +874,214 @@ def run_process_part(ctx, out):
     out.extra["binding_selftest"] = "a recording with a second SIGTERM (L1 SignalDiscipline), one without its terminate event and one whose process ignores the signal are rejected by TLC"
 
 
+# ===================================================================================================
+# wait_for_rest_layer against a scripted Elasticsearch client
+# ===================================================================================================
+REST_CLASSES = ["ok", "ser", "serhttps", "tls", "conn", "proto", "conntimeout", "transport", "api503", "api401", "api408", "api404", "api500", "api429", "api400", "api403", "api502", "other"]
+REST_RETRY = ["ser", "conn", "conntimeout", "transport", "api503", "api401", "api408"]
+
+
+def _rest_exception(cls):
+    import elastic_transport as et
+    import elasticsearch
+    import urllib3
+
+    if cls == "ser":
+        return et.SerializationError("Unable to deserialize as JSON")
+    if cls == "serhttps":
+        return et.SerializationError(message="Client sent an HTTP request to an HTTPS server")
+    if cls == "tls":
+        return elasticsearch.SSLError(message="[SSL: WRONG_VERSION_NUMBER] wrong version number (_ssl.c:1131)")
+    if cls == "conn":
+        return et.ConnectionError("Connection refused")
+    if cls == "proto":
+        return et.ConnectionError(message="N/A", errors=[urllib3.exceptions.ProtocolError("Connection aborted.")])
+    if cls == "conntimeout":
+        return et.ConnectionTimeout("Connection timed out")
+    if cls == "transport":
+        return et.TransportError("sniffing failed")
+    if cls.startswith("api"):
+        meta = et.ApiResponseMeta(status=int(cls[3:]), http_version="1.1", headers=et.HttpHeaders(), duration=0.0, node=et.NodeConfig(scheme="http", host="localhost", port=9200))
+        return elasticsearch.ApiError("status %s" % cls[3:], meta, None)
+    return ValueError("verif: not a transport error")
+
+
+def execute_rest(case):
+    """case: {"max": int | None (None = call without max_attempts: the default 40), "script": [class per health call], "hosts": int}.
+    Calls beyond the script succeed."""
+    from esrally import exceptions
+    from esrally.client import factory
+
+    st = {"calls": 0, "sleeps": 0, "slept": 0, "hist": [], "res": "none"}
+    events = []
+    anomalies = []
+    raised = {}
+
+    def emit(a, r):
+        events.append({"a": a, "r": r, "st": copy.deepcopy(st)})
+        if len(events) > 400:
+            raise _Divergence("wait_for_rest_layer does not end")
+
+    class Cluster:
+        def health(self_, *a, **kw):
+            k = st["calls"]
+            cls = case["script"][k] if k < len(case["script"]) else "ok"
+            if a or kw != {"wait_for_nodes": ">=%d" % case["hosts"]}:
+                anomalies.append("cluster.health(%r, %r)" % (a, kw))
+            st["calls"] += 1
+            st["hist"].append(cls)
+            emit("call", cls)
+            if cls == "ok":
+                return {"status": "red", "number_of_nodes": case["hosts"]}
+            ex = _rest_exception(cls)
+            raised[id(ex)] = (cls, ex)
+            raise ex
+
+    class Transport:
+        node_pool = [object()] * case["hosts"]
+
+    class Es:
+        cluster = Cluster()
+        transport = Transport()
+
+    class HookClock(VirtualClock):
+        def sleep(self_, secs):
+            super().sleep(secs)
+            st["sleeps"] += 1
+            isecs = int(secs) if float(secs) == int(secs) else -1
+            st["slept"] += isecs
+            emit("sleep", isecs)
+
+    _quiet_root_logger()
+    with HookClock():
+        try:
+            if case["max"] is None:
+                r = factory.wait_for_rest_layer(Es())
+            else:
+                r = factory.wait_for_rest_layer(Es(), max_attempts=case["max"])
+            tag = "True" if r is True else "False" if r is False else "returned %r" % (r,)
+        except exceptions.SystemSetupError as ex:
+            msg = str(ex.message)
+            tag = "setup:http-to-https" if "HTTP request to an HTTPS server" in msg else "setup:tls" if "via HTTPS" in msg else "setup:protocol" if "protocol error" in msg else "setup:?"
+        except _Divergence:
+            raise
+        except Exception as ex:  # pylint: disable=broad-except
+            tag = "raise:" + raised[id(ex)][0] if id(ex) in raised else "raise:?" + type(ex).__name__
+    st["res"] = tag
+    emit("ret", tag)
+    return {"max": 40 if case["max"] is None else case["max"], "events": events}, anomalies
+
+
+def rest_cases_from_tlc(ctx, out):
+    """every terminal state of RestLayer.quick.cfg = one (max_attempts, outcome per call) case with the model's verdict"""
+    from ..tlaparse import parse_dump
+
+    wd = tlc.prepare_workdir(SPEC, "xlrest")
+    dump = os.path.join(wd, "states")
+    res = tlc.run_tlc(wd, "MC_RestLayer", "RestLayer.quick.cfg", workers=1, dump=dump, timeout=200, allow_violation=True)
+    if not res.ok:
+        raise tlc.MachineryError("model violates %s in RestLayer.quick.cfg: %s" % (res.invariant_violated, res.out[-1500:]))
+    out.add_tlc(res)
+    out.note("leg M RestLayer.quick.cfg: %d distinct states, %.1fs" % (res.distinct, res.wall_s))
+    cases = []
+    for stt in parse_dump(dump + ".dump" if os.path.exists(dump + ".dump") else dump):
+        s = to_json(stt["s"])
+        if s["pc"] != "done":
+            continue
+        cases.append({"src": "tlc-dump", "max": stt["max"], "script": list(s["hist"]), "hosts": 1 + len(cases) % 3, "model": {"res": s["res"], "calls": s["calls"], "sleeps": s["sleeps"]}})
+    return cases
+
+
+def random_rest_case(rnd):
+    style = rnd.random()
+    mx = None if style < 0.08 else rnd.choice([0, 1, 2, 3, 4, 5, 6, 8, 12])
+    limit = 40 if mx is None else mx
+    length = rnd.choice([0, 1, 2, limit, limit + 1, limit + 2, rnd.randint(0, limit + 3)])
+    script = [rnd.choice(REST_RETRY) for _ in range(length)]
+    x = rnd.random()
+    if x < 0.35:
+        script.append(rnd.choice(REST_CLASSES))
+    elif x < 0.5 and script:
+        script[rnd.randrange(len(script))] = rnd.choice(REST_CLASSES)
+    return {"src": "random", "max": mx, "script": script, "hosts": rnd.randint(1, 5)}
+
+
+def run_rest_cases(cases, out, label, stats):
+    items, index = [], {}
+    for ci, case in enumerate(cases):
+        item, anomalies = execute_rest(case)
+        item["id"] = "%s-%d" % (label, ci)
+        items.append(item)
+        index[item["id"]] = (case, item)
+        fin = item["events"][-1]["st"]
+        out.add_case({k: case[k] for k in ("max", "script", "hosts")}, nontrivial=fin["calls"] >= 2)
+        stats["runs"] += 1
+        stats["res"][fin["res"].split(":")[0]] = stats["res"].get(fin["res"].split(":")[0], 0) + 1
+        stats["max_calls"] = max(stats["max_calls"], fin["calls"])
+        stats["default_max_attempts"] += case["max"] is None
+        if anomalies:
+            out.drift.append("%s: %s" % (item["id"], anomalies[:2]))
+        if case.get("model"):
+            stats["s2c"] += 1
+            stats["s2c_same"] += case["model"] == {"res": fin["res"], "calls": fin["calls"], "sleeps": fin["sleeps"]}
+    verdicts = tracecheck.validate(SPEC, "TraceRestLayer", "TraceRestLayer.cfg", items, name="xlresttrace", chunk=3000, timeout=600)
+    out.states += verdicts.n_events
+    out.transitions += verdicts.n_events
+    out.traces_validated += verdicts.accepted(len(items))
+    for tid, fails in sorted(verdicts.l1.items()):
+        case, item = index[tid]
+        clauses = sorted({c for _, cl in fails for c in cl})
+        key = ",".join(clauses)
+        stats["l1"][key] = stats["l1"].get(key, 0) + 1
+        fin = item["events"][-1]["st"]
+        out.violations.append(
+            Violation(
+                key,
+                {k: case[k] for k in ("max", "script", "hosts")},
+                signature={"part": "rest", "clauses": clauses, "calls_minus_max": fin["calls"] - item["max"], "pinned": sorted({PINNED[c][0] for c in clauses if c in PINNED})},
+                detail="run %s: max_attempts=%s, %d health calls, result %s%s" % (tid, case["max"], fin["calls"], fin["res"], " (pinned: %s)" % "; ".join(PINNED[c][0] for c in clauses) if all(c in PINNED for c in clauses) else ""),
+            )
+        )
+    for tid, lines in sorted(verdicts.l2.items()):
+        case, item = index[tid]
+        ln = lines[0]
+        what = {k: item["events"][ln - 1][k] for k in ("a", "r")} if 1 <= ln <= len(item["events"]) else "end of run"
+        out.drift.append("run %s: event %d (%s) is not a step of RestLayer.tla (code as it is); case %s" % (tid, ln, what, {k: case[k] for k in ("max", "script")}))
+    return items
+
+
+def run_rest_part(ctx, out):
+    todo = [("RestLayer.exact.cfg", None), ("RestLayer.selftest.cfg", "AtMostMax")]
+    if not ctx.quick:
+        todo.append(("RestLayer.thorough.cfg", None))
+    for c, expect in todo:
+        wd = tlc.prepare_workdir(SPEC, "xlrestmc")
+        res = tlc.run_tlc(wd, "MC_RestLayer", c, timeout=300, allow_violation=True, workers=2)
+        if expect is None:
+            out.add_tlc(res)
+            if not res.ok:
+                raise tlc.MachineryError("model violates %s in %s: %s" % (res.invariant_violated, c, res.out[-1500:]))
+            out.note("leg M %s: %d distinct states, %.1fs" % (c, res.distinct, res.wall_s))
+        elif res.invariant_violated != expect:
+            raise tlc.MachineryError("self-test failed: %s no longer violates %s" % (c, expect))
+        else:
+            out.extra.setdefault("model_selftests", []).append("%s violates %s in the model, as expected: ExactAttempts=FALSE, `while attempt <= max_attempts` counted from 0 makes max_attempts + 1 calls" % (c, expect))
+    stats = {"runs": 0, "res": {}, "max_calls": 0, "default_max_attempts": 0, "s2c": 0, "s2c_same": 0, "l1": {}}
+    cases = rest_cases_from_tlc(ctx, out)
+    items = run_rest_cases(cases, out, "rdump", stats)
+    out.sample({"source": "tlc-dump", "max_attempts": cases[-1]["max"], "script": cases[-1]["script"], "recorded": items[-1]["events"][-1]["st"]})
+    rnd = random.Random(ctx.seed + 123)
+    rc = [random_rest_case(rnd) for _ in range(500 if ctx.quick else 6000)]
+    run_rest_cases(rc, out, "rrnd", stats)
+    out.extra["rest_runs"] = stats
+    out.note("leg S2C/C2S (rest): %d runs (%d terminal states of the model, all with the model's result/calls/sleeps: %d), results %s, up to %d calls, %d with the default max_attempts" % (stats["runs"], stats["s2c"], stats["s2c_same"], stats["res"], stats["max_calls"], stats["default_max_attempts"]))
+    if stats["s2c_same"] != stats["s2c"]:
+        out.drift.append("rest: %d of %d terminal states of RestLayer.tla are not reproduced by wait_for_rest_layer" % (stats["s2c"] - stats["s2c_same"], stats["s2c"]))
+    for key in ("True", "setup", "raise"):
+        if not stats["res"].get(key):
+            out.vacuous.append("no executed wait_for_rest_layer run ended with: " + key)
+
+
 def run(ctx, out):
     out.rule = (
         "process case = scenario (nodes on the host, euid, failing telemetry device, time-outs in ticks, initial pid files / holders of stale pids) + "
@@ -886,3 +1097,4 @@ def run(ctx, out):
         "one start() followed by at most one stop() per launcher; a second stop() of the same nodes is not modelled",
     ]
     run_process_part(ctx, out)
+    run_rest_part(ctx, out)
